@@ -238,7 +238,13 @@ def from_file_params_obligations(ctx, rule, rid):
     plain = ctx.consts.get("pyxform.aliases", "select", rid)
     names = {n.id for n in ast.walk(guard) if isinstance(n, ast.Name) and isinstance(n.ctx, ast.Load)} if guard is not None else set()
     locals_ = {n for n in names if w2j.module.imports.get(n) is None and n not in w2j.module.functions and n not in w2j.module.assigns}
-    for spelling, want in [(k, True) for k in sorted(table)] + [(k, False) for k in sorted(plain) if k not in table][:6]:
+    # the from-file spellings: the documented four, whatever the select table offers as a from-file spelling, and the
+    # table itself (independent of which of the two tables a spelling is listed in)
+    from_file = {"select_one_from_file", "select_multiple_from_file", "select one from file", "select multiple from file"} | set(table) \
+        | {k for k in plain if "from file" in k.replace("_", " ")}
+    for spelling in sorted(from_file):
+        rule.check(spelling in plain, f"select-from-file spelling[{spelling!r}]", "is a select command (aliases.select)", w2j.loc(sites[0]))
+    for spelling, want in [(k, True) for k in sorted(from_file)] + [(k, False) for k in sorted(plain) if k not in from_file][:6]:
         it = ctx.interp(rid)
         it.reset([])
         env = {n: ({"select_command": spelling, "list_name": "c.csv"} if "dict" in n or "parse" in n else spelling) for n in locals_}
